@@ -197,7 +197,10 @@ def run_job(job, workdir):
             ob["vacuity_guard"] = True
             if ob["status"] == "FAILURE":
                 reach_failed = True
-            else:
+            elif desc.startswith("reach:") and ob["id"].startswith(job.entry + "."):
+                # labelled reach points inside the entry function guard against PARTIAL vacuity (an unreachable
+                # branch of the harness); cbmc also lists the reach assertions of harness functions that are not
+                # part of this job (unreachable from the entry), which must be ignored
                 reach_missed.append(desc)
         elif ob["status"] == "FAILURE":
             if "unwinding assertion" in desc or "recursion unwinding" in desc:
